@@ -282,7 +282,10 @@ func writeEvidence(verif string, p harness.Property, e *harness.Env, st *harness
 		"fidelity_gate":                 fid,
 		"components": map[string]any{
 			"real":          []string{"all crd packages (instrumented: same statements plus seam calls)", "ybase lexer base", "yaml.v3", "cobra/pflag", "gomidi smf writer/reader", "Go runtime", "real fd 1/2 and real exit status"},
-			"stub":          []string{"stdin and file opens/creates (simulated streams, virtual file map)", "goroutine hand-over, channels, mutexes (simulated primitives with Go semantics, baton scheduler)", "map iteration order (seeded permutation of the real map's keys)", "RLIMIT_AS as the allocator limit"},
+			"stub":          []string{"stdin and file opens/creates (simulated streams, virtual file map)", "goroutine hand-over, channels, mutexes (simulated primitives with Go semantics, baton scheduler)", "map iteration order (seeded permutation of the real map's keys)", "RLIMIT_AS as the allocator limit",
+				"time: clock, Sleep, timers, tickers, context deadlines (discrete-event clock: 1 tick = 1 us of computing, jumps over blocked tasks)",
+				"os.Stdout / os.Stderr where crd names them (pass-through to the real descriptors with write faults and delays; implicit writers such as goyacc's trace and cobra's usage stay on the real descriptors)",
+				"sync.Map, sync.Pool, errgroup (seeded choices instead of the runtime's)"},
 			"not_exercised": []string{"crd write play, crd midi port (real-time playback)"},
 		},
 		"known_findings_matched": known,
